@@ -159,6 +159,13 @@ def run_item(ctx, item):
         # derived copies (other convention, more steps) must not change what the original computes afterwards
         other = t.grid(grid.align_corners(not ac))
         other.update()
+        # ... and the re-gridded copy exponentiates its own (converted) velocities with its own convention
+        ctx.close("SVF_regridded_copy_u_is_expv_of_its_v", other.u, expv(other.v, steps=k, align_corners=not ac), 1e-5, key="SVF/u_after_grid_", steps=k, **info)
+        t_in = StationaryVelocityFieldTransform(grid, params=v.float(), steps=k)
+        t_in.update()
+        t_in.grid_(grid.align_corners(not ac))
+        t_in.update()
+        ctx.close("SVF_u_after_grid__is_expv_of_its_v", t_in.u, expv(t_in.v, steps=k, align_corners=not ac), 1e-5, key="SVF/u_after_grid_", steps=k, **info)
         t.update()
         ctx.close("SVF_u_buffer_unchanged_by_regridded_copy", t.u, ref, 2e-4, key="SVF/u_after_copy", steps=k, **info)
         ti2 = t.inverse(update_buffers=True)
